@@ -266,3 +266,120 @@ Proof.
   unfold dtr in Hb. destruct (runt (rdec F d) known (bs ++ rest)) as [o evs]. cbn [fst snd] in *. subst o.
   destruct (Hb 0) as [Hm _]. rewrite Hm, N.add_0_l in H. destruct (rdepth F d v <=? L); exact H.
 Qed.
+
+(* ---------- the memory announced while decoding a recursive value ---------- *)
+Require Import Scale.Mem.
+
+Definition rann_field (self : val -> N) (f : rfield) (x : val) : N :=
+  match f, x with
+  | FTy t, _ => ann t x
+  | FBox sz, _ => sz + self x
+  | FOptBox sz, VSome y => sz + self y
+  | FVec sz, VSeq l => N.of_nat (length l) * sz + suml (map self l)
+  | _, _ => 0
+  end.
+Fixpoint rann_fields (self : val -> N) (fs : list rfield) (fv : val) : N :=
+  match fs, fv with
+  | f :: r, VPair x y => rann_field self f x + rann_fields self r y
+  | _, _ => 0
+  end.
+Fixpoint rann (F : nat) (d : rdef) (v : val) : N :=
+  match F with
+  | O => 0
+  | S f =>
+      match v with
+      | VVar k fv => match nth_error d k with Some (_, fs) => rann_fields (rann f d) fs fv | None => 0 end
+      | _ => 0
+      end
+  end.
+
+Section FieldsMem.
+  Variables (self : prog val) (senc : val -> eres (list byte)) (scanon : val -> val) (sann : val -> N).
+  Hypothesis self_rt : forall x bs, senc x = EOk bs -> forall known rest, runo self known (bs ++ rest) = OOk (scanon x) rest.
+  Hypothesis self_ann : forall x bs, senc x = EOk bs -> forall known rest, atr self known (bs ++ rest) = sann x.
+
+  Lemma boxed_ann sz x bs known rest : senc x = EOk bs -> atr (boxed sz self) known (bs ++ rest) = sz + sann x.
+  Proof.
+    intros H. unfold boxed. rewrite !atr_emit. cbn [asum]. rewrite N.add_0_l, N.add_0_r. f_equal.
+    rewrite (atr_bind_ok _ _ self _ known _ _ _ (self_rt x bs H known rest)), atr_emit, atr_ret. cbn [asum].
+    rewrite !N.add_0_r. now apply self_ann.
+  Qed.
+
+  Lemma rfield_ann f x bs known rest : wf_rfield f = true -> renc_field senc f x = EOk bs ->
+    atr (rfield_dec self f) known (bs ++ rest) = rann_field sann f x.
+  Proof.
+    intros Hw He. destruct f as [t|sz|sz|sz]; cbn [rfield_dec renc_field rann_field wf_rfield] in *.
+    - destruct (wf t x) eqn:Hx; [|discriminate]. exact (proj1 ann_mut t Hw x bs Hx He known rest).
+    - now apply boxed_ann.
+    - destruct x; try discriminate.
+      + injection He as <-. cbn [app]. rewrite atr_read_byte. reflexivity.
+      + apply eapp_ok in He as (a & b & [= <-] & Hb & ->). cbn [app]. rewrite atr_read_byte. cbn [Byte.to_N].
+        rewrite (atr_bind_ok _ _ _ _ known _ _ _ (boxed_rt self senc scanon self_rt sz x b known rest Hb)), atr_ret, N.add_0_r.
+        now apply boxed_ann.
+    - destruct x; try discriminate. apply N.leb_le in Hw.
+      apply eapp_ok in He as (a & b & Ha & Hb & ->).
+      unfold enc_count in Ha. destruct (N.ltb_spec u32max (N.of_nat (length l))) as [|Hn]; [discriminate|].
+      unfold spec_c in Ha. injection Ha as <-. rewrite <- app_assoc.
+      assert (Hfit: N.of_nat (length l) < 2 ^ (8 * 4)) by (unfold u32max in Hn; change (2 ^ (8 * 4)) with 4294967296; lia).
+      rewrite (atr_bind_ok _ _ (dec_compact 4) _ known _ _ _ (rt_compact 4 _ known (b ++ rest) okwidth4 Hfit)).
+      rewrite (noalloc_atr _ _ known (noalloc_dec_compact 4)), N.add_0_l.
+      pose proof (rep_rt self senc scanon known l (fun v _ bs0 Hbs rest0 => self_rt v bs0 Hbs known rest0) b Hb rest) as Hrun.
+      assert (Hch: runo (chunked_items sz (N.of_nat (length l)) self) known (b ++ rest) = OOk (map scanon l) rest)
+        by (rewrite (chunked_items_is_rep sz _ self Hw); exact Hrun).
+      rewrite atr_emit. cbn [asum]. rewrite N.add_0_l.
+      rewrite (atr_bind_ok _ _ _ _ known _ _ _ Hch), atr_emit, atr_ret. cbn [asum]. rewrite !N.add_0_r.
+      rewrite (seq_atr _ _ _ known _ _ _ (seq_chunked sz _ self Hw) Hch).
+      rewrite <- suml_shift.
+      apply (rep_sum (emit (HAlloc sz) ;;; self) senc scanon (fun v => sz + sann v) known l); [|exact Hb].
+      intros v _ bs0 Hbs rest0. rewrite runo_emit, atr_emit. cbn [asum].
+      split; [now apply self_rt|]. rewrite (self_ann v bs0 Hbs known rest0). lia.
+  Qed.
+
+  Lemma rfields_ann fs : forallb wf_rfield fs = true -> forall fv bs known rest, renc_fields senc fs fv = EOk bs ->
+    atr (rfields self fs) known (bs ++ rest) = rann_fields sann fs fv.
+  Proof.
+    induction fs as [|f r IH]; intros Hw fv bs known rest He; cbn [rfields renc_fields rann_fields forallb] in *.
+    - destruct fv; try discriminate. reflexivity.
+    - apply andb_prop in Hw as [Hf Hr]. destruct fv; try discriminate.
+      apply eapp_ok in He as (a & b & Ha & Hb & ->). rewrite <- app_assoc.
+      rewrite (atr_bind_ok _ _ _ _ known _ _ _ (rfield_rt self senc scanon self_rt f fv1 a known (b ++ rest) Hf Ha)).
+      rewrite (atr_bind_ok _ _ _ _ known _ _ _ (rfields_rt self senc scanon self_rt r Hr fv2 b known rest Hb)), atr_ret, N.add_0_r.
+      f_equal; [now apply rfield_ann|now apply IH].
+  Qed.
+End FieldsMem.
+
+Theorem rec_announced_closed_form d : wf_rdef d = true -> ridx_ok d = true ->
+  forall F v bs, renc F d v = EOk bs ->
+  forall known rest, asum (snd (runt (rdec F d) known (bs ++ rest))) = rann F d v.
+Proof.
+  intros Hw Hok. induction F as [|f IH]; intros v bs He known rest; cbn [renc] in He; [discriminate|].
+  destruct v as [ | | | | | | | | | |k fv]; try discriminate.
+  destruct (nth_error d k) as [[idx fs]|] eqn:Hn; [|discriminate].
+  apply eapp_ok in He as (a & b & [= <-] & Hb & ->).
+  pose proof (ridx_lt d Hok k idx fs Hn) as Hlt.
+  change (atr (rdec (S f) d) known (([byte_of idx] ++ b) ++ rest) = rann (S f) d (VVar k fv)).
+  cbn [rdec rann app]. rewrite Hn, atr_read_byte, to_byte_of, N.mod_small by exact Hlt.
+  rewrite (rvariants_select _ d Hok k idx fs 0 Hn).
+  pose proof (fun x bs0 H known0 rest0 => rec_roundtrip d Hw Hok f x bs0 H known0 rest0) as Hrt.
+  rewrite (atr_bind_ok _ _ _ _ known _ _ _
+             (rfields_rt (rdec f d) (renc f d) (rcanon f d) Hrt fs (wf_rdef_nth d Hw k idx fs Hn) fv b known rest Hb)), atr_ret, N.add_0_r.
+  apply (rfields_ann (rdec f d) (renc f d) (rcanon f d) (rann f d) Hrt (fun x bs0 H known0 rest0 => IH x bs0 H known0 rest0) fs
+           (wf_rdef_nth d Hw k idx fs Hn) fv b known rest Hb).
+Qed.
+
+(* memory-limited decoding of the encoding of a recursive value *)
+Theorem rec_mem_limit_on_encodings d F v bs known rest L :
+  wf_rdef d = true -> ridx_ok d = true -> renc F d v = EOk bs -> rann F d v <= usize_max ->
+  (rann F d v < L -> exists u, run (memmon L) (rdec F d) known (bs ++ rest) 0 = ROk (rcanon F d v) rest u) /\
+  (0 < rann F d v -> L <= rann F d v -> exists u, run (memmon L) (rdec F d) known (bs ++ rest) 0 = RErr u).
+Proof.
+  intros Hw Hok He Hu.
+  pose proof (mem_limit_threshold _ (rdec F d) known (bs ++ rest) L) as H.
+  pose proof (rec_announced_closed_form d Hw Hok F v bs He known rest) as Ha.
+  pose proof (rec_roundtrip d Hw Hok F v bs He known rest) as Hr. rewrite <- runt_fst in Hr.
+  destruct (runt (rdec F d) known (bs ++ rest)) as [o evs]. cbn [fst snd] in *. subst o. cbv zeta in H.
+  rewrite used_after_asum in H by (rewrite Ha; lia). rewrite Ha, N.add_0_l in H.
+  destruct H as (H1 & H2 & H3). split.
+  - intros HL. exact (H1 HL).
+  - intros Hpos HL. apply H2; [apply H3; exact Hpos|exact HL].
+Qed.
